@@ -83,20 +83,20 @@ def c18_scan():
                 findings.append((f, line(t), 'std::' + x))
             elif x in ('SystemTime', 'Instant', 'RandomState', 'rand', 'thread_rng', 'getrandom'):
                 findings.append((f, line(t), x))
-            elif x == 'HashMap':
-                findings.append((f, line(t), 'HashMap (iteration order depends on a per-process random seed)'))
             elif x == 'Command' and fn_at.get(k) != 'pretty_print_rustfmt' and prev != ',' and not (prev == '{' or nxt == ','):
                 findings.append((f, line(t), 'process::Command outside pretty_print_rustfmt'))
-        # HashSet iteration: `.iter()`, `for x in set`, `.into_iter()`, `.drain()` on a variable whose declaration mentions HashSet
-        for m in re.finditer(r'\b(?:let\s+mut\s+|let\s+)?(\w+)\s*(?::\s*&?(?:mut\s+)?)?(?:[\w:]*::)?HashSet\b', src[:limit]):
+        # HashSet / HashMap ITERATION: `.iter()`, `.keys()`, `.values()`, `for x in map`, `.into_iter()`, `.drain()`, .. on a variable whose
+        # declaration mentions HashSet or HashMap.  Membership tests and keyed lookups (insert / contains / get / entry) are deterministic.
+        for m in re.finditer(r'\b(?:let\s+mut\s+|let\s+)?(\w+)\s*(?::\s*&?(?:mut\s+)?)?(?:[\w:]*::)?Hash(?:Set|Map)\b', src[:limit]):
             hash_vars.add(m.group(1))
-        for m in re.finditer(r'\b(\w+)\s*:\s*&(?:mut\s+)?(?:[\w:]*::)?HashSet\b', src[:limit]):
+        for m in re.finditer(r'\b(\w+)\s*:\s*&(?:mut\s+)?(?:[\w:]*::)?Hash(?:Set|Map)\b', src[:limit]):
             hash_vars.add(m.group(1))
-        for m in re.finditer(r'let\s+(?:mut\s+)?(\w+)\s*=\s*(?:[\w:]*::)?HashSet::', src[:limit]):
+        for m in re.finditer(r'let\s+(?:mut\s+)?(\w+)\s*=\s*(?:[\w:]*::)?Hash(?:Set|Map)::', src[:limit]):
             hash_vars.add(m.group(1))
+        hash_vars -= {'let', 'mut', 'use', 'collections', 'std'}
         for v in hash_vars:
-            for m in re.finditer(r'(?<![.\w])%s\s*\.\s*(iter|into_iter|drain|iter_mut|retain|extend_from)\b|\bin\s+&?(?:mut\s+)?%s\b(?!\s*\.)' % (re.escape(v), re.escape(v)), src[:limit]):
-                findings.append((f, src.count('\n', 0, m.start()) + 1, 'HashSet `%s` is iterated (hash order would leak into the output)' % v))
+            for m in re.finditer(r'(?<![.\w])%s\s*\.\s*(iter|into_iter|drain|iter_mut|retain|extend_from|keys|values|values_mut|into_keys|into_values)\b|\bin\s+&?(?:mut\s+)?%s\b(?!\s*\.)' % (re.escape(v), re.escape(v)), src[:limit]):
+                findings.append((f, src.count('\n', 0, m.start()) + 1, 'hash collection `%s` is iterated (HashMap / HashSet iteration order depends on a per-process random seed and would leak into the output)' % v))
     return findings, checked, files
 
 
@@ -192,7 +192,7 @@ def run(prop, tier, seed, unit_results):
     if prop == 'C18':
         findings, checked, files = c18_scan()
         res['report']['purity_scan'] = {'files': files, 'tokens_scanned': checked, 'findings': [list(x) for x in findings],
-                                        'level': 'syntactic scan (bounded stand-in, not a proof): no static/thread_local/unsafe/interior mutability/env/time/fs/net/rand/HashMap, HashSet only through insert/contains, Command only in pretty_print_rustfmt'}
+                                        'level': 'syntactic scan (bounded stand-in, not a proof): no static/thread_local/unsafe/interior mutability/env/time/fs/net/rand; HashMap / HashSet never iterated (membership and keyed lookup only), Command only in pretty_print_rustfmt'}
         for f, ln, what in findings[:5]:
             res['violations'].append({'unit': 'purity-scan', 'label': 'C18.scan-' + re.sub(r'[^A-Za-z0-9]+', '-', what)[:40].strip('-'),
                                       'failure': {'message': 'purity scan: %s at %s:%d' % (what, f, ln), 'blocks': [], 'labels': [], 'where': ['%s:%d' % (f, ln)], 'props': ['C18']},
